@@ -569,7 +569,7 @@ def _object_key(case):
     return repr((case["kind"], case.get("verts"), case.get("cells"), case.get("leaves"), case.get("nd"), case.get("grid")))
 
 
-CHUNK = 150  # cases per work item: one object is rebuilt for every chunk of its boxes (load balance)
+CHUNK = 300  # cases per work item: one object is rebuilt for every chunk of its boxes (load balance)
 
 
 def _group_cases(cases):
@@ -626,10 +626,10 @@ def run(tier, seed):
     viol, per_cfg, samples = [], {}, []
     t0 = time.time()
     with ThreadPoolExecutor(max_workers=PREFETCH + 2) as tp:
-        negs = [tp.submit(funcheck.expect_violation, "select", module, cfg, inv) for module, cfg, inv in NEGATIVE]
         futs = {}
         for i in range(min(PREFETCH, len(cfgs))):
             futs[i] = tp.submit(_enumerate, cfgs[i][0], cfgs[i][1])
+        negs = [tp.submit(funcheck.expect_violation, "select", module, cfg, inv) for module, cfg, inv in NEGATIVE]
         for i, (module, cfg, mx) in enumerate(cfgs):
             res, cases = futs.pop(i).result()
             nxt = i + PREFETCH
@@ -665,14 +665,19 @@ def run(tier, seed):
             "negative_controls": neg_txt,
             "wall_total_s": round(time.time() - t0, 1),
             "rule": "TLC enumerates every (object, box) configuration within the constants of each cfg, checks the C13 "
-                    "invariants on the spec's Mask/CopyFromExtent and prints the expected outcome; every case is "
-                    "replayed: masks (object, utils, Data) for both inverse flags on every case, copy_from_extent once per "
-                    "distinct selection of each object plus seeded extras (always for grids, drillholes and groups)",
+                    "invariants on the spec's Mask / CopyFromExtent (both inverse flags) and prints the expected outcome; "
+                    "every case is replayed: object, utils and Data masks on every case and flag; copy_from_extent (object "
+                    "and Data) once per distinct selection of each object chunk plus seeded extras; grids are matched to "
+                    "the spec by cell-centre coordinates; six named-deviation cfgs must violate their invariant",
         },
         "assumptions": [
-            "bounds: see cfg files in spec/select",
-            "coordinates are exact binary fractions (half lattice units) so faces lying exactly on points are decided exactly",
-            "float data only; None is accepted exactly when the spec says the box misses the bounding box or nothing qualifies",
+            "bounds: cfg files in spec/select (lattice <= 3x3x2, <= 4 vertices, every cell set, half-unit box faces; "
+            "Grid2D <= 3x3, BlockModel <= 2x2x2 (3x2x1), 5 octree layouts, 13 exact rotation / dip angles)",
+            "exact cases (lattice objects, unrotated grids) put faces exactly on coordinates; rotated / dipped grids keep "
+            "every face >= 1/10 unit from every centre coordinate (invariant FacesSafe), so round-off cannot decide",
+            "None is accepted exactly when the box misses the bounding box or nothing qualifies; an empty object / "
+            "all-blank grid is accepted as the empty selection; order, orientation and array layout are not compared",
+            "float data only; trusted: TLC, this comparison code",
         ],
     }
 
